@@ -178,6 +178,15 @@ def run_case(ctx, name, obj, cfg):
     return out
 
 
+# earlier CLI calls of the same process (their own file is the pickle EARLIER); flags the pinned CLI does not know end in a
+# usage error there, which is an earlier call like any other
+EARLIER_CALLS = [
+    [["convert", "-q", "EARLIER"]], [["convert", "-vv", "EARLIER"]], [["update", "-q", "EARLIER"]],
+    [["convert", "--quiet", "EARLIER"], ["update", "EARLIER"]], [["convert", "EARLIER", "-o", "earlier.skops"]],
+    [["update", "-vv", "EARLIER"]], [["update", "EARLIER"], ["convert", "-v", "EARLIER"]],
+]
+
+
 def run(ctx):
     t0 = time.time()
     lean_ok = ctx.build(required_theorems=REQUIRED)
@@ -198,16 +207,21 @@ def run(ctx):
     for i in range(ctx.budget(60, 4000)):
         v, sup = g.value(0, supported=(r.random() < 0.8))
         objects.append((f"gen{i}", v))
+    # every kind of earlier call, each followed by a convert of an object with untrusted types at every verbosity
+    history_cases = []
+    for hi, pre in enumerate(EARLIER_CALLS):
+        history_cases.append((f"after-earlier-call-{hi}", [U.Plain(hi, 2), {"k": U.WithGetstate(3)}], hi))
     ofails, mism = [], []
     n, hist = 0, {}
     samples = []
+    objects = [(n, o) for n, o, _ in history_cases] + objects
     for i, (name, obj) in enumerate(objects):
         cfg = dict(output=OUTPUTS[i % len(OUTPUTS)] if i < 40 else r.choice(OUTPUTS), verbosity=i % 3, dest_exists=(i % 2 == 0),
                    input_name=INPUT_NAMES[i % len(INPUT_NAMES)], input_dir="cwd" if i % 4 else "elsewhere")
-        if i % 5 == 3:
+        if i % 5 == 3 or name.startswith("after-earlier-call-"):
             earlier = str(Path_(i))
-            cfg["before"] = r.choice([[["convert", "-q", earlier]], [["convert", "-vv", earlier]], [["update", "-q", earlier]],
-                                      [["convert", "--quiet", earlier], ["update", earlier]], [["convert", earlier, "-o", "earlier.skops"]]])
+            pick = EARLIER_CALLS[int(name.rsplit("-", 1)[1])] if name.startswith("after-earlier-call-") else r.choice(EARLIER_CALLS)
+            cfg["before"] = [[earlier if a == "EARLIER" else a for a in call] for call in pick]
         try:
             res = run_case(ctx, name, obj, cfg)
         except Exception as ex:
